@@ -110,6 +110,21 @@ func c19InjectAndObserve(real bool, container *d2graph.Object, ng *d2graph.Graph
 	if len(before) == 0 {
 		tlX, tlY = 0, 0
 	}
+	// Go copy of H_nested_in_box (root size given, 1 px like code 2), only used to decide whether a known-finding id applies
+	hypOK, outX, outY, outNeg := true, false, false, false
+	if rootW != 0 && rootH != 0 {
+		for _, s := range before {
+			if s.X < -1 || s.Y < -1 {
+				hypOK, outNeg = false, true
+			}
+			if s.X+s.W > rootW+1 {
+				hypOK, outX = false, true
+			}
+			if s.Y+s.H > rootH+1 {
+				hypOK, outY = false, true
+			}
+		}
+	}
 	nObj, nEdge := len(og.Objects), len(og.Edges)
 	roots := append([]*d2graph.Object(nil), ng.Root.ChildrenArray...)
 	nKids := len(container.ChildrenArray)
@@ -161,7 +176,8 @@ func c19InjectAndObserve(real bool, container *d2graph.Object, ng *d2graph.Graph
 		c19Q(pad.Top), c19Q(pad.Bottom), c19Q(pad.Left), c19Q(pad.Right),
 		c19ForestTerm(before), coqList(ptsBefore), c19Q(cx), c19Q(cy), c19Q(iw), c19Q(ih), c19ForestTerm(after), coqList(ptsAfter))
 	impl = map[string]any{"root": []float64{rootW, rootH}, "container": []float64{cx, cy, iw, ih}, "objects": len(before), "route_points": len(ptsBefore),
-		"nested_bbox_top_left": []float64{tlX, tlY}, "bounding_box_branch": rootW == 0 || rootH == 0}
+		"nested_bbox_top_left": []float64{tlX, tlY}, "bounding_box_branch": rootW == 0 || rootH == 0,
+		"hyp_ok": hypOK, "out_x": outX, "out_y": outY, "out_neg": outNeg}
 	return coq, impl, fails
 }
 
@@ -291,7 +307,7 @@ func c19NestSynthetic(r *Rng, idx int) (cs Case) {
 
 // c19NestReal compiles script, cuts the container `id` out with ExtractSubgraph, lays the nested graph out with the
 // real LayoutNested (grid / sequence layout, engine for what is nested deeper), and injects it at (cx, cy).
-func c19NestReal(script, id, engine string, cx, cy float64) (coq string, impl map[string]any, fails []string, skip bool) {
+func c19NestReal(script, id, engine string, cx, cy float64, mutate func(*d2graph.Graph)) (coq string, impl map[string]any, fails []string, skip bool) {
 	defer func() {
 		if e := recover(); e != nil {
 			fails = append(fails, fmt.Sprintf("panic: %v", e))
@@ -305,6 +321,9 @@ func c19NestReal(script, id, engine string, cx, cy float64) (coq string, impl ma
 	g, _, err := d2compiler.Compile("", strings.NewReader(script), nil)
 	if err != nil {
 		return "", nil, nil, true
+	}
+	if mutate != nil {
+		mutate(g)
 	}
 	if err := g.SetDimensions(nil, c19Ruler, nil, nil); err != nil {
 		return "", nil, []string{"SetDimensions: " + err.Error()}, false
